@@ -73,6 +73,13 @@ M = [
  ("C20", "packet-sent-before-write", "server/client.go", "\t\t\terr = client.writePacket(packet)\n\t\t\tif err != nil {\n\t\t\t\treturn\n\t\t\t}\n\t\t\tsrv.statsManager.packetSent(packet, client.opts.ClientID)", "\t\t\tsrv.statsManager.packetSent(packet, client.opts.ClientID)\n\t\t\tsrv.statsManager.packetSent(packet, client.opts.ClientID)\n\t\t\terr = client.writePacket(packet)\n\t\t\tif err != nil {\n\t\t\t\treturn\n\t\t\t}"),
  ("C20", "session-inactive-not-called", "server/stats.go", "\tatomic.AddUint64(&s.totalStats.ConnectionStats.DisconnectedTotal, 1)\n\ts.sessionInActive()", "\tatomic.AddUint64(&s.totalStats.ConnectionStats.DisconnectedTotal, 1)"),
  ("C20", "qos0-read-not-decremented", "persistence/queue/mem/mem.go", "\t\tif pub.QoS == 0 {\n\t\t\tq.current = q.current.Next()\n\t\t\tq.l.Remove(v)\n\t\t\tmsgQueueDelta--", "\t\tif pub.QoS == 0 {\n\t\t\tq.current = q.current.Next()\n\t\t\tq.l.Remove(v)"),
+ ("C16", "duplicate-suppression-removed", "plugin/federation/federation.go", "\tif sess.seenEvents.set(eventID) {", "\tif sess.seenEvents.set(eventID) && false {"),
+ ("C16", "set-read-position-ignored", "plugin/federation/peer.go", "\t\tif ev.Id == id {\n\t\t\te.nextRead = elem\n\t\t\treturn\n\t\t}", "\t\tif ev.Id == id {\n\t\t\treturn\n\t\t}"),
+ ("C16", "ack-removes-only-acked-id", "plugin/federation/peer.go", "\t\tif req.Id <= id {\n\t\t\te.l.Remove(elem)\n\t\t}", "\t\tif req.Id == id {\n\t\t\te.l.Remove(elem)\n\t\t}"),
+ ("C16", "unsubscribe-event-not-applied", "plugin/federation/federation.go", "\t\t_ = f.fedSubStore.Unsubscribe(sess.nodeName, unsub.TopicName)\n", ""),
+ ("C17", "forward-to-all-peers", "plugin/federation/hooks.go", "\tfor nodeName := range nonShared {\n\t\tif _, ok := sent[nodeName]; ok {\n\t\t\tcontinue\n\t\t}\n\t\tif p, ok := f.peers[nodeName]; ok {", "\tfor nodeName := range f.peers {\n\t\tif _, ok := sent[nodeName]; ok {\n\t\t\tcontinue\n\t\t}\n\t\tif p, ok := f.peers[nodeName]; ok {"),
+ ("C17", "retained-not-cleared-on-peer", "plugin/federation/federation.go", "\t\t\tif len(pubMsg.Payload) == 0 {\n\t\t\t\tf.retainedStore.Remove(pubMsg.Topic)\n\t\t\t} else {", "\t\t\tif false {\n\t\t\t\tf.retainedStore.Remove(pubMsg.Topic)\n\t\t\t} else {"),
+ ("C17", "retained-only-to-matching-peers", "plugin/federation/hooks.go", "\tif msg.Retained {\n\t\teventMsg := messageToEvent(msg)\n\t\tfor _, v := range f.peers {", "\tif msg.Retained && len(msg.Payload) == 0 {\n\t\teventMsg := messageToEvent(msg)\n\t\tfor _, v := range f.peers {"),
 ]
 
 
@@ -114,7 +121,7 @@ def main():
             os.makedirs(os.path.join(V, "mutants", prop), exist_ok=True)
             open(os.path.join(V, "mutants", prop, name + ".patch"), "w").write(sh("git -C %s diff" % WT).stdout)
             t0 = time.time()
-            env = dict(os.environ, VERIF_REPO=WT)
+            env = dict(os.environ, VERIF_REPO=WT, VERIF_ALT_TAG="mut")
             r = sh("cd %s && ./vcheck quick %s 2>&1 | cut -c1-240 | grep -a 'VIOLATION\\|HARNESS-ERROR\\|quick:\\|  C' | head -4" % (V, prop), env=env)
             out = r.stdout.strip().replace("\n", " | ")
             verdict = "CAUGHT" if "VIOLATION" in out else ("HARNESS-ERROR" if "HARNESS" in out else "MISSED")
